@@ -3,7 +3,7 @@
 
 For every property: run the quick check keeping the recorded traces, check that the untouched traces are accepted, then
 corrupt ONE logged field (or drop / duplicate ONE event) in each of the first scenarios and validate again: the trace
-specification must reject. Prints a matrix corruption kind x property (applied / rejected) and writes evidence/selftest.json.
+specification must reject. Prints a matrix corruption kind x property (applied / rejected) and writes selftest/selftest.json.
 Exit 1 if some property's trace specification rejected nothing at all (it would constrain nothing)."""
 import copy, glob, json, os, subprocess, sys
 sys.path.insert(0, os.path.dirname(os.path.abspath(__file__)))
@@ -187,7 +187,7 @@ def main():
                 bad.append(p)
         else:
             print(f"{p}: {r}")
-    ef = os.path.join(ROOT, "evidence", "selftest.json")
+    ef = os.path.join(ROOT, "selftest", "selftest.json")
     prev = json.load(open(ef)) if os.path.exists(ef) else {}
     prev.update(out)
     json.dump(prev, open(ef, "w"), indent=1)
